@@ -1,13 +1,278 @@
-(* C17 -- proofs about the String model. *)
+(* C17 -- the theorems of the property, over all operation lists, and the refuted statements for the tree as pinned. *)
 From Coq Require Import List NArith ZArith Bool Lia.
-From Muscle Require Import Gen.Consts Cont.StrL0 Cont.StrModel.
+From Muscle Require Import Gen.Consts Cont.StrL0 Cont.StrModel Cont.StrLemmas Cont.StrGrow Cont.StrCore Cont.StrOps Cont.StrL0Facts Cont.StrOps2 Cont.StrProd Cont.StrRefine Cont.StrNulfree.
 Import ListNotations.
 Local Open Scope N_scope.
 
-(* the translated constants have the relations the model relies on; a changed constant re-checks this *)
+(* ------------------------------------------------------------------ the translated constants *)
+
+(* the translated constants have the relations the model and its proofs rely on; a changed constant re-checks this *)
 Lemma consts_ok :
   c_STRING_SIZEOF = c_STRING_MAX_SHORT_LENGTH + 1 /\ 1 <= c_STRING_MAX_SHORT_LENGTH < 128 /\
   c_MUSCLE_NO_LIMIT = NOLIMIT /\ c_STRING_MAX_LENGTH = 2147483646 /\
   c_STRING_MAX_SHORT_LENGTH + 1 < c_string_small_growth_threshold /\
   c_string_malloc_overhead < c_string_page_size.
 Proof. vm_compute. repeat split; congruence. Qed.
+
+Lemma cM_pos : 1 <= c_STRING_MAX_SHORT_LENGTH. Proof. vm_compute. discriminate. Qed.
+Lemma cTH_ge : 2 <= c_string_small_growth_threshold. Proof. vm_compute. discriminate. Qed.
+Lemma cPG_pos : 0 < c_string_page_size. Proof. vm_compute. reflexivity. Qed.
+Lemma cPG_le : c_string_page_size <= 1048576. Proof. vm_compute. discriminate. Qed.
+Lemma cOV_lt : c_string_malloc_overhead < c_string_page_size. Proof. vm_compute. reflexivity. Qed.
+Lemma cM_le : c_STRING_MAX_SHORT_LENGTH <= 1048576. Proof. vm_compute. discriminate. Qed.
+
+(* ------------------------------------------------------------------ level-0 facts about aliasing *)
+
+Lemma lit_of_dealias l a : lit_of l (dealias_s l a) = lit_of l a.
+Proof. destruct a; reflexivity. Qed.
+Lemma clit_of_dealias l c : clit_of l (dealias_c l c) = clit_of l c.
+Proof. destruct c; reflexivity. Qed.
+
+(* at level 0 an aliasing operand *is* a copy: nothing to prove beyond unfolding *)
+Lemma step0_dealias l o : step0 l (dealias l o) = step0 l o.
+Proof.
+  assert (P : forall o, mutate0 l (dealias l o) = mutate0 l o /\ produce0 l (dealias l o) = produce0 l o /\
+                        query l l (dealias l o) = query l l o).
+  { intros o'. destruct o'; cbn [dealias mutate0 produce0 query]; rewrite ?lit_of_dealias, ?clit_of_dealias;
+      splits; try reflexivity; repeat match goal with a : sarg |- _ => destruct a end; reflexivity. }
+  destruct o;
+    try (match goal with
+         | |- step0 l (dealias l ?o0) = step0 l ?o0 =>
+             destruct (P o0) as (P1 & P2 & P3); cbn [dealias] in *; cbn [step0]; rewrite ?P1, ?P2, ?P3; reflexivity
+         end).
+  cbn [dealias step0]. destruct (P o) as (_ & P2 & _). now rewrite P2.
+Qed.
+
+(* the domain of an operation list: each operation is in the domain of the state level 0 has reached *)
+Fixpoint run_ok (l : list N) (ops : list op) : Prop :=
+  match ops with
+  | [] => True
+  | o :: t => op_ok l o /\ run_ok (fst (step0 l o)) t
+  end.
+
+Lemma dealias_args_ok l o : nulfree l -> lenN l < LIM -> args_ok o -> args_ok (dealias l o).
+Proof.
+  intros F B. assert (S1 : forall a, sarg_ok a -> sarg_ok (dealias_s l a)) by (intros [x|] H; cbn; [exact H|split; assumption]).
+  assert (C1 : forall c, carg_ok c -> carg_ok (dealias_c l c)).
+  { intros [|x|off] H; cbn; trivial. split; [now apply nulfree_dropN|rewrite lenN_dropN; lia]. }
+  induction o; cbn [dealias args_ok]; intros A; try exact A; try (now apply S1); try (now apply C1); try (exact (IHo A)).
+  all: destruct A as [A1 A2]; split; now apply S1.
+Qed.
+Lemma dealias_need l o : need l (dealias l o) = need l o.
+Proof. induction o; cbn [dealias need]; rewrite ?lit_of_dealias, ?clit_of_dealias; trivial. Qed.
+Lemma dealias_op_ok l o : nulfree l -> op_ok l o -> op_ok l (dealias l o).
+Proof. intros F (B & A & N). split; [exact B|]. split; [now apply dealias_args_ok|now rewrite dealias_need]. Qed.
+
+Set Default Proof Using "All".
+
+Section Final.
+Variables (M TH PG OV jk : N).
+Hypothesis M_pos : 1 <= M.
+Hypothesis TH_ge : 2 <= TH.
+Hypothesis PG_pos : 0 < PG.
+Hypothesis PG_le : PG <= 1048576.
+Hypothesis OV_lt : OV < PG.
+Hypothesis M_le : M <= 1048576.
+
+Local Notation inv_len := (StrCore.inv_len M TH PG OV jk M_pos TH_ge PG_pos PG_le OV_lt M_le).
+Local Notation inv_lt := (StrCore.inv_lt M TH PG OV jk M_pos TH_ge PG_pos PG_le OV_lt M_le).
+Local Notation inv_nul := (StrCore.inv_nul M TH PG OV jk M_pos TH_ge PG_pos PG_le OV_lt M_le).
+Local Notation inv_short_le := (StrCore.inv_short_le M TH PG OV jk M_pos TH_ge PG_pos PG_le OV_lt M_le).
+Local Notation lenN_abs := (StrCore.lenN_abs M TH PG OV jk M_pos TH_ge PG_pos PG_le OV_lt M_le).
+Local Notation commit_spec := (StrCore.commit_spec M TH PG OV jk M_pos TH_ge PG_pos PG_le OV_lt M_le).
+Local Notation inv_empty1 := (StrCore.inv_empty1 M TH PG OV jk M_pos TH_ge PG_pos PG_le OV_lt M_le).
+Local Notation inv_clear_short := (StrCore.inv_clear_short M TH PG OV jk M_pos TH_ge PG_pos PG_le OV_lt M_le).
+Local Notation inv_clear_and_flush := (StrCore.inv_clear_and_flush M TH PG OV jk M_pos TH_ge PG_pos PG_le OV_lt M_le).
+Local Notation ensure_enough := (StrCore.ensure_enough M TH PG OV jk M_pos TH_ge PG_pos PG_le OV_lt M_le).
+Local Notation inv_fin := (StrCore.inv_fin M TH PG OV jk M_pos TH_ge PG_pos PG_le OV_lt M_le).
+Local Notation ensure_grow := (StrCore.ensure_grow M TH PG OV jk M_pos TH_ge PG_pos PG_le OV_lt M_le).
+Local Notation ensure_noretain := (StrCore.ensure_noretain M TH PG OV jk M_pos TH_ge PG_pos PG_le OV_lt M_le).
+Local Notation set_len_short_spec := (StrCore.set_len_short_spec M TH PG OV jk M_pos TH_ge PG_pos PG_le OV_lt M_le).
+Local Notation ensure_shrink := (StrCore.ensure_shrink M TH PG OV jk M_pos TH_ge PG_pos PG_le OV_lt M_le).
+Local Notation ensure_ok := (StrCore.ensure_ok M TH PG OV jk M_pos TH_ge PG_pos PG_le OV_lt M_le).
+Local Notation u32_small := (StrOps.u32_small M TH PG OV jk M_pos TH_ge PG_pos PG_le OV_lt M_le).
+Local Notation src_ok_lit := (StrOps.src_ok_lit M TH PG OV jk M_pos TH_ge PG_pos PG_le OV_lt M_le).
+Local Notation src_ok_of := (StrOps.src_ok_of M TH PG OV jk M_pos TH_ge PG_pos PG_le OV_lt M_le).
+Local Notation src_bytes_lit := (StrOps.src_bytes_lit M TH PG OV jk M_pos TH_ge PG_pos PG_le OV_lt M_le).
+Local Notation src_bytes_of := (StrOps.src_bytes_of M TH PG OV jk M_pos TH_ge PG_pos PG_le OV_lt M_le).
+Local Notation lenN_src_bytes := (StrOps.lenN_src_bytes M TH PG OV jk M_pos TH_ge PG_pos PG_le OV_lt M_le).
+Local Notation src_take_nul := (StrOps.src_take_nul M TH PG OV jk M_pos TH_ge PG_pos PG_le OV_lt M_le).
+Local Notation take_with_nul := (StrOps.take_with_nul M TH PG OV jk M_pos TH_ge PG_pos PG_le OV_lt M_le).
+Local Notation abs_of_prefix := (StrOps.abs_of_prefix M TH PG OV jk M_pos TH_ge PG_pos PG_le OV_lt M_le).
+Local Notation ensure_grow_ok := (StrOps.ensure_grow_ok M TH PG OV jk M_pos TH_ge PG_pos PG_le OV_lt M_le).
+Local Notation ensure_noretain_ok := (StrOps.ensure_noretain_ok M TH PG OV jk M_pos TH_ge PG_pos PG_le OV_lt M_le).
+Local Notation commit_set := (StrOps.commit_set M TH PG OV jk M_pos TH_ge PG_pos PG_le OV_lt M_le).
+Local Notation commit_append := (StrOps.commit_append M TH PG OV jk M_pos TH_ge PG_pos PG_le OV_lt M_le).
+Local Notation cap_lt := (StrOps.cap_lt M TH PG OV jk M_pos TH_ge PG_pos PG_le OV_lt M_le).
+Local Notation takeN_min_len := (StrOps.takeN_min_len M TH PG OV jk M_pos TH_ge PG_pos PG_le OV_lt M_le).
+Local Notation dropN_min_len := (StrOps.dropN_min_len M TH PG OV jk M_pos TH_ge PG_pos PG_le OV_lt M_le).
+Local Notation clear_spec := (StrOps.clear_spec M TH PG OV jk M_pos TH_ge PG_pos PG_le OV_lt M_le).
+Local Notation cstr_region_self := (StrOps.cstr_region_self M TH PG OV jk M_pos TH_ge PG_pos PG_le OV_lt M_le).
+Local Notation cstr_cregion := (StrOps.cstr_cregion M TH PG OV jk M_pos TH_ge PG_pos PG_le OV_lt M_le).
+Local Notation set_cstr_spec := (StrOps.set_cstr_spec M TH PG OV jk M_pos TH_ge PG_pos PG_le OV_lt M_le).
+Local Notation set_from_spec := (StrOps.set_from_spec M TH PG OV jk M_pos TH_ge PG_pos PG_le OV_lt M_le).
+Local Notation append_s_spec := (StrOps.append_s_spec M TH PG OV jk M_pos TH_ge PG_pos PG_le OV_lt M_le).
+Local Notation append_c_spec := (StrOps.append_c_spec M TH PG OV jk M_pos TH_ge PG_pos PG_le OV_lt M_le).
+Local Notation append_ch_spec := (StrOps.append_ch_spec M TH PG OV jk M_pos TH_ge PG_pos PG_le OV_lt M_le).
+Local Notation insert_core := (StrOps.insert_core M TH PG OV jk M_pos TH_ge PG_pos PG_le OV_lt M_le).
+Local Notation concat_rep1 := (StrOps.concat_rep1 M TH PG OV jk M_pos TH_ge PG_pos PG_le OV_lt M_le).
+Local Notation lenN_concat_rep := (StrOps.lenN_concat_rep M TH PG OV jk M_pos TH_ge PG_pos PG_le OV_lt M_le).
+Local Notation insert_aux_ext := (StrOps.insert_aux_ext M TH PG OV jk M_pos TH_ge PG_pos PG_le OV_lt M_le).
+Local Notation insert_chars_spec := (StrOps.insert_chars_spec M TH PG OV jk M_pos TH_ge PG_pos PG_le OV_lt M_le).
+Local Notation prealloc_safe := (StrOps.prealloc_safe M TH PG OV jk M_pos TH_ge PG_pos PG_le OV_lt M_le).
+Local Notation prealloc_ok := (StrOps.prealloc_ok M TH PG OV jk M_pos TH_ge PG_pos PG_le OV_lt M_le).
+Local Notation shrink_safe := (StrOps.shrink_safe M TH PG OV jk M_pos TH_ge PG_pos PG_le OV_lt M_le).
+Local Notation trunc_spec := (StrOps.trunc_spec M TH PG OV jk M_pos TH_ge PG_pos PG_le OV_lt M_le).
+Local Notation trunc_chars_spec := (StrOps.trunc_chars_spec M TH PG OV jk M_pos TH_ge PG_pos PG_le OV_lt M_le).
+Local Notation trunc_to_spec := (StrOps.trunc_to_spec M TH PG OV jk M_pos TH_ge PG_pos PG_le OV_lt M_le).
+Local Notation flatten_spec := (StrOps.flatten_spec M TH PG OV jk M_pos TH_ge PG_pos PG_le OV_lt M_le).
+Local Notation cstr_fixpoint_unterminated := (StrOps.cstr_fixpoint_unterminated M TH PG OV jk M_pos TH_ge PG_pos PG_le OV_lt M_le).
+Local Notation unflatten_spec := (StrOps.unflatten_spec M TH PG OV jk M_pos TH_ge PG_pos PG_le OV_lt M_le).
+Local Notation ctor_sub_spec := (StrOps.ctor_sub_spec M TH PG OV jk M_pos TH_ge PG_pos PG_le OV_lt M_le).
+Local Notation l0_sub_all := (StrOps.l0_sub_all M TH PG OV jk M_pos TH_ge PG_pos PG_le OV_lt M_le).
+Local Notation l0_sub_all' := (StrOps.l0_sub_all' M TH PG OV jk M_pos TH_ge PG_pos PG_le OV_lt M_le).
+Local Notation ctor_copy_spec := (StrOps.ctor_copy_spec M TH PG OV jk M_pos TH_ge PG_pos PG_le OV_lt M_le).
+Local Notation ctor_copy_pre_spec := (StrOps.ctor_copy_pre_spec M TH PG OV jk M_pos TH_ge PG_pos PG_le OV_lt M_le).
+Local Notation ctor_pre_lit_spec := (StrOps.ctor_pre_lit_spec M TH PG OV jk M_pos TH_ge PG_pos PG_le OV_lt M_le).
+Local Notation commit_at := (StrOps.commit_at M TH PG OV jk M_pos TH_ge PG_pos PG_le OV_lt M_le).
+Local Notation cut_spec := (StrOps.cut_spec M TH PG OV jk M_pos TH_ge PG_pos PG_le OV_lt M_le).
+Local Notation map_content_spec := (StrOps.map_content_spec M TH PG OV jk M_pos TH_ge PG_pos PG_le OV_lt M_le).
+Local Notation reverse_spec := (StrOps.reverse_spec M TH PG OV jk M_pos TH_ge PG_pos PG_le OV_lt M_le).
+Local Notation lenN_replace_ch_aux := (StrOps.lenN_replace_ch_aux M TH PG OV jk M_pos TH_ge PG_pos PG_le OV_lt M_le).
+Local Notation lenN_replace_ch := (StrOps.lenN_replace_ch M TH PG OV jk M_pos TH_ge PG_pos PG_le OV_lt M_le).
+Local Notation replace_ch_spec := (StrOps.replace_ch_spec M TH PG OV jk M_pos TH_ge PG_pos PG_le OV_lt M_le).
+Local Notation arg_src_ok := (StrRefine.arg_src_ok M TH PG OV jk M_pos TH_ge PG_pos PG_le OV_lt M_le).
+Local Notation osrc_bytes := (StrRefine.osrc_bytes M TH PG OV jk M_pos TH_ge PG_pos PG_le OV_lt M_le).
+Local Notation osrc_len := (StrRefine.osrc_len M TH PG OV jk M_pos TH_ge PG_pos PG_le OV_lt M_le).
+Local Notation osrc_src_ok := (StrRefine.osrc_src_ok M TH PG OV jk M_pos TH_ge PG_pos PG_le OV_lt M_le).
+Local Notation mutate_refines := (StrRefine.mutate_refines M TH PG OV jk M_pos TH_ge PG_pos PG_le OV_lt M_le).
+Local Notation produce_refines := (StrRefine.produce_refines M TH PG OV jk M_pos TH_ge PG_pos PG_le OV_lt M_le).
+Local Notation mutate_none := (StrRefine.mutate_none M TH PG OV jk M_pos TH_ge PG_pos PG_le OV_lt M_le).
+Local Notation produce_none := (StrRefine.produce_none M TH PG OV jk M_pos TH_ge PG_pos PG_le OV_lt M_le).
+Local Notation abs_out_lift := (StrRefine.abs_out_lift M TH PG OV jk M_pos TH_ge PG_pos PG_le OV_lt M_le).
+Local Notation query_plain := (StrRefine.query_plain M TH PG OV jk M_pos TH_ge PG_pos PG_le OV_lt M_le).
+Local Notation op_ok_assign := (StrRefine.op_ok_assign M TH PG OV jk M_pos TH_ge PG_pos PG_le OV_lt M_le).
+Local Notation src_ok := StrOps.src_ok.
+Local Notation osrc_ok := StrOps.osrc_ok.
+Local Notation carg_ok := StrOps.carg_ok.
+Local Notation slen := (slen M).
+Local Notation cap := (cap M).
+Local Notation abs := (abs M).
+Local Notation inv := (inv M).
+Local Notation commit := (commit M).
+Local Notation empty1 := (empty1 M jk).
+Local Notation osrc := (osrc M).
+Local Notation src_of := (src_of M).
+
+Local Notation out_inv := (StrRefine.out_inv M).
+Local Notation step1 := (step1 M TH PG OV jk true).
+Local Notation exec1 := (exec1 M TH PG OV jk true).
+Local Notation abs_out := (abs_out M).
+Local Notation flatten1 := (flatten1 M).
+Local Notation unflatten1 := (unflatten1 M TH PG OV jk true).
+Local Notation prealloc := (prealloc M TH PG OV jk true).
+Local Notation shrink_to_fit := (shrink_to_fit M TH PG OV jk true).
+
+(* C17, main theorem: along every operation list the storage invariant holds (NUL-terminated, length inside the
+   capacity, small-buffer/heap bookkeeping consistent) and the level-1 String -- whatever its storage mode and
+   capacity, and whichever operands alias it -- yields exactly the results and the value of the ideal byte string *)
+Theorem exec_refines ops : forall s,
+  inv s -> nulfree (abs s) -> run_ok (abs s) ops ->
+  inv (fst (exec1 s ops)) /\ nulfree (abs (fst (exec1 s ops))) /\
+  abs (fst (exec1 s ops)) = fst (exec0 (abs s) ops) /\
+  map abs_out (snd (exec1 s ops)) = snd (exec0 (abs s) ops) /\
+  Forall out_inv (snd (exec1 s ops)).
+Proof.
+  induction ops as [|o t IH]; intros s I F R; cbn [StrModel.exec1 exec0].
+  - cbn [fst snd map]. splits; trivial.
+  - destruct R as [Ok R].
+    destruct (step_refines s o I F Ok) as (I1 & A1 & O1 & V1).
+    pose proof (step0_nulfree (abs s) o F (proj1 (proj2 Ok))) as F1.
+    destruct (step1 s o) as [s1 r] eqn:E1. destruct (step0 (abs s) o) as [l1 r0] eqn:E0. cbn [fst snd] in *.
+    subst l1. specialize (IH s1 I1 F1 R).
+    destruct (exec1 s1 t) as [s2 rs]. destruct (exec0 (abs s1) t) as [l2 rs0]. cbn [fst snd map] in *.
+    destruct IH as (I2 & F2 & A2 & O2 & V2). splits; trivial; [now rewrite O1, O2|now constructor].
+Qed.
+
+(* "regardless of whether the contents live in the small buffer or on the heap": two Strings with the same bytes,
+   in any two storage states, give the same results and end with the same bytes *)
+Theorem storage_irrelevant ops s1 s2 :
+  inv s1 -> inv s2 -> nulfree (abs s1) -> abs s1 = abs s2 -> run_ok (abs s1) ops ->
+  abs (fst (exec1 s1 ops)) = abs (fst (exec1 s2 ops)) /\
+  map abs_out (snd (exec1 s1 ops)) = map abs_out (snd (exec1 s2 ops)).
+Proof.
+  intros I1 I2 F E R.
+  destruct (exec_refines ops s1 I1 F R) as (_ & _ & A1 & O1 & _).
+  rewrite E in F, R. destruct (exec_refines ops s2 I2 F R) as (_ & _ & A2 & O2 & _).
+  rewrite E in A1, O1. split; congruence.
+Qed.
+
+(* "operations whose arguments alias the String itself give the same result as with a separate copy" *)
+Theorem alias_eq s o :
+  inv s -> nulfree (abs s) -> op_ok (abs s) o ->
+  abs (fst (step1 s o)) = abs (fst (step1 s (dealias (abs s) o))) /\
+  abs_out (snd (step1 s o)) = abs_out (snd (step1 s (dealias (abs s) o))).
+Proof.
+  intros I F Ok.
+  destruct (step_refines s o I F Ok) as (_ & A1 & O1 & _).
+  destruct (step_refines s (dealias (abs s) o) I F (dealias_op_ok _ _ F Ok)) as (_ & A2 & O2 & _).
+  rewrite step0_dealias in A2, O2. split; congruence.
+Qed.
+
+(* "A String serialises to its bytes plus one NUL and parses back to an equal String ..." *)
+Theorem flatten_roundtrip s t :
+  inv s -> nulfree (abs s) -> slen s + 1 < LIM -> inv t ->
+  flatten1 s = abs s ++ [0] /\
+  exists t', unflatten1 t (flatten1 s) = (StOk, t') /\ inv t' /\ abs t' = abs s.
+Proof.
+  intros I F B It. rewrite (flatten_spec s I). split; [reflexivity|].
+  destruct (unflatten_spec t (abs s ++ [0]) It) as (_ & U2).
+  { rewrite lenN_app, lenN_cons, lenN_nil, (lenN_abs s I). lia. }
+  destruct U2 as (t' & E & I' & A').
+  { intros X. apply nulfree_app in X. destruct X as [_ X]. inversion X. congruence. }
+  exists t'. splits; trivial. rewrite A'. now apply cstr_nulfree_app.
+Qed.
+(* "... rejecting unterminated input" (and leaving the String as it was) *)
+Theorem unflatten_rejects_unterminated t bytes :
+  inv t -> lenN bytes < LIM -> nulfree bytes -> unflatten1 t bytes = (StErr, t).
+Proof. intros It B F. now apply (proj1 (unflatten_spec t bytes It B)). Qed.
+
+(* Prealloc and ShrinkToFit never change the value, for every argument (no size premise) *)
+Theorem prealloc_value_safe s n : inv s -> inv (snd (prealloc s n)) /\ abs (snd (prealloc s n)) = abs s.
+Proof. apply prealloc_safe. Qed.
+Theorem shrink_value_safe s extra : inv s -> inv (snd (shrink_to_fit s extra)) /\ abs (snd (shrink_to_fit s extra)) = abs s.
+Proof. apply shrink_safe. Qed.
+
+End Final.
+
+(* ------------------------------------------------------------------ the tree as pinned (fixed = false) *)
+
+Definition pM := 15. Definition pTH := 32. Definition pPG := 4096. Definition pOV := 12.
+Definition abc1 (fixed : bool) (pre : N) : str1 :=      (* String(PreallocatedItemSlotsCount(pre), "abc") *)
+  ctor_pre_lit pM pTH pPG pOV 170 fixed pre [97; 98; 99].
+
+(* F27: on the pinned tree Prealloc(2^30+1) reports success and empties a non-empty String *)
+Lemma pinned_prealloc_refuted :
+  exists s n, abs pM s = [97; 98; 99] /\
+              fst (prealloc pM pTH pPG pOV 170 false s n) = StOk /\ abs pM (snd (prealloc pM pTH pPG pOV 170 false s n)) = [].
+Proof. exists (abc1 false 0), 1073741825. vm_compute. repeat split. Qed.
+(* ... the repaired code refuses the same request and keeps the value *)
+Example fixed_prealloc_same_witness :
+  fst (prealloc pM pTH pPG pOV 170 true (abc1 true 0) 1073741825) = StErr /\
+  abs pM (snd (prealloc pM pTH pPG pOV 170 true (abc1 true 0) 1073741825)) = [97; 98; 99].
+Proof. vm_compute. split; reflexivity. Qed.
+
+(* F28: on the pinned tree Unflatten accepts unterminated input (and clears the String) *)
+Lemma pinned_unflatten_refuted :
+  exists s bytes, nulfree bytes /\ fst (unflatten1 pM pTH pPG pOV 170 false s bytes) = StOk.
+Proof. exists (abc1 false 0), [97; 98; 99]. split; [repeat constructor; discriminate|vm_compute; reflexivity]. Qed.
+
+(* F31: on the pinned tree ShrinkToFit(2^32-1) leaves a heap String whose length equals its capacity: the
+   terminator lies outside the buffer and the last character was overwritten *)
+Lemma pinned_shrink_refuted :
+  exists s extra, let s' := snd (shrink_to_fit pM pTH pPG pOV 170 false s extra) in
+                  abs pM s = [97; 98; 99] /\ slen pM s' = cap pM s' /\ abs pM s' <> [97; 98; 99].
+Proof. exists (abc1 false 40), 4294967295. vm_compute. repeat split. discriminate. Qed.
+Example fixed_shrink_same_witness :
+  abs pM (snd (shrink_to_fit pM pTH pPG pOV 170 true (abc1 true 40) 4294967295)) = [97; 98; 99].
+Proof. vm_compute. reflexivity. Qed.
